@@ -220,12 +220,10 @@ def context_shape(table, defs, pos, inner):
     """syntactic class of a failing position = which hypothesis of context_is_innermost_body_partial
     it violates"""
     leaves = table['leaves']
-    li = None
+    # the token at pos, and the token that ends exactly at pos (jedi works with that one)
     for i, l in enumerate(leaves):
-        if (l[0], l[1]) <= pos < (l[2], l[3]):
-            li = i
-    if li is not None and lambda_in_class(table, li):
-        return 'lambda-directly-in-class-body'
+        if (l[0], l[1]) <= pos <= (l[2], l[3]) and lambda_in_class(table, i):
+            return 'lambda-directly-in-class-body'
     if inner is not None:
         chain = defs[inner]['parents'] + [inner]
         for j in reversed(chain):
@@ -595,7 +593,7 @@ def gen_items(ctx):
     for w in WITNESSES:
         items.append({'prog': w, 'layout': 'flat', 'tag': 'witness'})
     items.append({'prog': WITNESSES[0], 'layout': 'mapped', 'tag': 'witness'})
-    n = ctx.size(140, 6000)
+    n = ctx.size(90, 6000)
     for i in range(n):
         layout = 'flat' if i % 4 else ['package', 'namespace', 'init', 'flat'][(i // 4) % 4]
         items.append({'prog': G.gen_program(rng, size=rng.choice([6, 10, 14])), 'layout': layout, 'tag': 'random'})
@@ -613,11 +611,13 @@ def corpus_items(ctx):
             if f.endswith('.py'):
                 files.append(os.path.join(root, f))
     files = [f for f in files if os.path.getsize(f) < 60000]
-    pick = rng.sample(files, min(len(files), ctx.size(6, 80)))
+    pick = rng.sample(files, min(len(files), ctx.size(4, 80)))
     return [{'file': f, 'layout': 'flat', 'tag': 'corpus', 'sample': '%s-%s' % (ctx.seed, f)} for f in pick]
 
 
 def run(ctx):
+    import time
+    t0 = time.time()
     items = gen_items(ctx) + corpus_items(ctx)
     corpus_dir = os.path.join(common.CORPUS_DIR, 'C18')
     import json
@@ -630,12 +630,22 @@ def run(ctx):
                 pre.append({'prog': d['prog'], 'layout': d.get('layout', 'flat'), 'tag': 'witness'})
     items = pre + items
     outs = common.parallel_map('props.c18', 'analyse', items, jobs=14)
+    t1 = time.time()
     reqs, cases = [], []
     for out in outs:
         absorb(ctx, out, reqs, cases)
     if ctx.model_ok:
-        answers = common.run_driver_parallel('C18', reqs)
+        from concurrent.futures import ThreadPoolExecutor
+        k = 8
+        chunks = [reqs[i::k] for i in range(k)]
+        with ThreadPoolExecutor(k) as ex:
+            parts = list(ex.map(lambda ch: common.run_driver('C18', ch), chunks))
+        answers = [None] * len(reqs)
+        for i, part in enumerate(parts):
+            answers[i::k] = part
+        t2 = time.time()
         compare(ctx, cases, answers)
+        ctx.notes.append('phases: jedi+oracles %.1fs, lean driver %.1fs, compare %.1fs' % (t1 - t0, t2 - t1, time.time() - t2))
     else:
         ctx.notes.append('model did not build: correspondence skipped, oracle only')
     if (ctx.broken or not ctx.model_ok) and not any(ctx.violations):
